@@ -252,7 +252,7 @@ var numPool = []string{"0", "-0", "1", "-1", "7", "12", "-12", "100", "214748364
 	"100000000000000000000.5", "9007199254740993", "9007199254740993.0", "1e1022", "1e1023", "123456789012345678", "1234567890.123456789", "0.000001", "1e-7"}
 
 var strPool = []string{``, `a`, `b`, `a.b`, `x y`, `é`, `日本`, `\n`, `a\tb`, `\"`, `\\`, `\/`, `\b\f\r`, `A`, `é`, `é`, `€`, `😀`, `😀 x`,
-	`\ud83d`, `\ude00`, `\ud83dx`, `\u0000`, `\u001f`, "\U0001F600", `{\"a\":1}`, `[1,2]`, `null`, `true`, `12`, `//`, `/* c */`, `'q'`, `a,b`, `a:b`, ` lead`, `trail `, `}`, `]`}
+	`\ud83d`, `\ude00`, `\ud83dx`, `\ud83d\ude00`, `\u0000`, `\u001f`, "\U0001F600", `{\"a\":1}`, `[1,2]`, `null`, `true`, `12`, `//`, `/* c */`, `'q'`, `a,b`, `a:b`, ` lead`, `trail `, `}`, `]`}
 
 type rgen struct {
 	r   *rand.Rand
@@ -271,9 +271,7 @@ func (g *rgen) ws() {
 
 func (g *rgen) str() {
 	g.b = append(g.b, '"')
-	if g.big && g.r.Intn(4) == 0 {
-		g.b = append(g.b, strings.Repeat("long string ", 50+g.r.Intn(100))...)
-	} else {
+	{
 		g.b = append(g.b, strPool[g.r.Intn(len(strPool))]...)
 		if g.r.Intn(4) == 0 {
 			g.b = append(g.b, strPool[g.r.Intn(len(strPool))]...)
@@ -297,9 +295,6 @@ func (g *rgen) value(depth int) {
 	case k <= 8 || true:
 		obj := k == 9 || g.r.Intn(3) == 0
 		n := g.r.Intn(5)
-		if g.big && g.r.Intn(3) == 0 {
-			n += 20
-		}
 		if obj {
 			g.b = append(g.b, '{')
 		} else {
@@ -340,8 +335,14 @@ func tokGen(n int) {
 			g.b = append(g.b, 0xEF, 0xBB, 0xBF)
 		}
 		g.ws()
+		if g.big {
+			// one long string document in front: the 4096-byte refill boundary of the readers falls into what follows
+			g.b = append(g.b, '"')
+			g.b = append(g.b, strings.Repeat("p", 4040+r.Intn(50))...)
+			g.b = append(g.b, '"', '\n')
+		}
 		docs := 1
-		if r.Intn(4) == 0 {
+		if r.Intn(4) == 0 || g.big {
 			docs = 2 + r.Intn(3)
 		}
 		for d := 0; d < docs; d++ {
@@ -360,13 +361,6 @@ func tokGen(n int) {
 			g.value(1 + r.Intn(4))
 		}
 		g.ws()
-		if g.big {
-			// cross the 4096-byte refill boundary of the readers
-			for len(g.b) < 4200 {
-				g.b = append(g.b, ' ')
-				g.b = append(g.b, []byte(`{"pad":[1,2.5,"x",null,true]}`)...)
-			}
-		}
 		x := ints(g.b)
 		mk := func(t string, k, b int, y []byte) {
 			emit(map[string]any{"src": "go", "x": x, "m": map[string]any{"t": t, "k": k, "b": b}, "y": ints(y), "ne": -1, "nd": -1})
@@ -374,7 +368,10 @@ func tokGen(n int) {
 		mk("none", 0, 0, g.b)
 		if g.big {
 			if r.Intn(2) == 0 {
-				k := 4000 + r.Intn(150)
+				k := 4090 + r.Intn(20)
+				if k >= len(g.b) {
+					k = len(g.b) - 1
+				}
 				mk("cut", k, 0, g.b[:k])
 			}
 			continue
